@@ -1437,7 +1437,7 @@ write_gvar_data(Relocation *cur, Initializer *init, Type *ty, char *buf, int off
         char *loc = buf + offset + mem->offset;
         uint64_t oldval = read_buf(loc, mem->ty->size);
         uint64_t newval = eval(expr);
-        uint64_t mask = (1L << mem->bit_width) - 1;
+        uint64_t mask = ~0UL >> (64 - mem->bit_width);
         uint64_t combined = oldval | ((newval & mask) << mem->bit_offset);
         write_buf(loc, combined, mem->ty->size);
       } else {
